@@ -426,6 +426,7 @@ type delegateRec struct {
 	Bcasts     [][]byte // handed out on GetBroadcasts (all that fit)
 	GaveOut    [][]byte
 	Local      []byte
+	LocalDelay time.Duration // the next LocalState call takes this long
 	Merged     [][]byte
 	MergedJoin []bool
 	GetCalls   [][2]int
@@ -456,7 +457,18 @@ func (d *delegateRec) GetBroadcasts(overhead, limit int) [][]byte {
 	d.GaveOut = append(d.GaveOut, out...)
 	return out
 }
-func (d *delegateRec) LocalState(join bool) []byte { d.mu.Lock(); defer d.mu.Unlock(); return d.Local }
+func (d *delegateRec) LocalState(join bool) []byte {
+	d.mu.Lock()
+	delay := d.LocalDelay
+	d.LocalDelay = 0
+	d.mu.Unlock()
+	if delay > 0 {
+		time.Sleep(delay) // a slow application callback (once)
+	}
+	d.mu.Lock()
+	defer d.mu.Unlock()
+	return d.Local
+}
 func (d *delegateRec) MergeRemoteState(b []byte, join bool) {
 	d.mu.Lock()
 	d.Merged = append(d.Merged, append([]byte(nil), b...))
